@@ -11,8 +11,8 @@ from ..report import violation
 PID = "C09"
 LEVEL = "model_checking"
 RULE = (
-    "for every configuration (6 toy models x 6 weight qtypes x activations {None,qint8,e4m3} x dtype {f32,f16,bf16}) breadth-first search over life-cycle histories of "
-    "{forward, calibrate(batch a|b), freeze, to('cpu'), deepcopy, state-dict round trip} to depth 5 (quick) / 7 (thorough); states rebuilt by replay, de-duplicated on a hash of "
+    "for every configuration (7 toy models x 6 weight qtypes x activations {None,qint8,e4m3} x dtype {f32,f16,bf16}, plus 16 configurations with a user-defined optimizer) breadth-first search over life-cycle histories of "
+    "{forward, calibrate(batch a|b, streamlined or not), freeze, requires_grad_(False), to('cpu'), deepcopy, state-dict round trip} to depth 5 (quick) / 7 (thorough); states rebuilt by replay, de-duplicated on a hash of "
     "all parameters, buffers, payloads and qtypes. Invariants on every transition: freeze / freeze-again / to / deepcopy keep the outputs on two probe inputs bit-identical and leave "
     "biases, scales and non-quantized modules untouched; after freeze every weight is a quantized tensor of the requested qtype with exactly ceil(rows*bits/8) x (numel/rows) payload "
     "bytes and one scale (zero-point) per output index or group; a second freeze leaves the payload storage identical. Non-trivial transitions = freeze/to/deepcopy/state-dict events."
@@ -22,17 +22,17 @@ ASSUMPTIONS = [
     "state-dict round trips are used to reach more states; their own correctness is judged by C10",
     "bfloat16 models use in_features that are multiples of 16 or not multiples of 4 (torch int8pack kernel domain, see C07)",
 ]
-PRESERVING = {"freeze", "to_cpu", "deepcopy", "sd"}
+PRESERVING = {"freeze", "to_cpu", "deepcopy", "sd", "no_grad_params"}
 
 
 class St:
     def __init__(self, cfg):
         self.cfg = cfg
-        self.model = models.build_quantized(cfg["model"], cfg["dt"], cfg["w"], cfg["a"])
+        self.model = models.build_quantized(cfg["model"], cfg["dt"], cfg["w"], cfg["a"], optimizer=cfg.get("opt", False))
 
 
 def _events(st, tier):
-    ev = ["fwd_a", "freeze", "to_cpu", "deepcopy", "sd"]
+    ev = ["fwd_a", "freeze", "to_cpu", "deepcopy", "sd", "no_grad_params"]
     if st.cfg["a"]:
         ev.append("calib_a")
         ev.append("calib_s")  # default Calibration(): streamlining may switch some activation qtypes to None
@@ -54,6 +54,8 @@ def _apply(st, ev):
             m(models.probe_input(cfg["model"], cfg["dt"], 0 if ev == "calib_a" else 1))
     elif ev == "freeze":
         freeze(m)
+    elif ev == "no_grad_params":
+        m.requires_grad_(False)  # e.g. a backbone frozen for transfer learning
     elif ev == "to_cpu":
         st.model = m.to("cpu")
     elif ev == "deepcopy":
@@ -63,7 +65,7 @@ def _apply(st, ev):
         torch.save(m.state_dict(), b)
         b.seek(0)
         sd = torch.load(b, weights_only=False)
-        fresh = models.build_quantized(cfg["model"], cfg["dt"], cfg["w"], cfg["a"])
+        fresh = models.build_quantized(cfg["model"], cfg["dt"], cfg["w"], cfg["a"], optimizer=cfg.get("opt", False))
         fresh.load_state_dict(sd)
         st.model = fresh
     else:
@@ -208,6 +210,11 @@ def _cfgs(tier):
             for a in (None, "qint8", "qfloat8_e4m3fn"):
                 for dt in ("float32", "float16", "bfloat16"):
                     out.append({"model": model, "w": w, "a": a, "dt": dt})
+    # a user-defined optimizer of the right family (non-default argument of quantize())
+    for model in ("mlp", "wide"):
+        for w in ("qint8", "qfloat8_e4m3fn", "qint4", "qint2"):
+            for a in (None, "qint8"):
+                out.append({"model": model, "w": w, "a": a, "dt": "float32", "opt": True})
     return out
 
 
